@@ -1,6 +1,10 @@
 """Per-property claim metadata (level, technique, notes) shared by the manifest generator and the checks."""
-CORR = ('Tie to the code: differential correspondence on every run (extracted model vs. crate, debug+release) over boundary-directed generators. ')
+CORR = ('Tie to the code, both ways, on every run: (1) differential correspondence (extracted model vs. crate, debug+release) over boundary-directed '
+        'generators, with a sample re-evaluated inside the kernel; (2) regeneration from the source text: tables/constants (py/srcfacts.py) and the '
+        'control flow of 130 codec functions (py/rs2v translator) are re-derived from /repo and kernel-checked against the Model, and the linked '
+        'regenerated decoder is proved equal to the Model decoder on every input (hide/reveal: correspondence only). ')
 TB = ('Trusted: Coq 8.16.1 kernel incl. vm_compute; extraction (ExtrOcamlBasic only) + ocamlopt + driver.ml; Rust harness, Python generators/differ; '
+      'the translator py/rs2v and its representation tables; '
       'modelled-not-verified: md5 crate, from_utf8, slice/Vec primitives, proc-macro expansions.')
 
 def P(level, text, ref, technique, note):
@@ -31,7 +35,8 @@ PROVED = {
          'Wall-clock time of the compiled code is outside the model: a watchdog covers it on generated inputs only (that part is partial).'),
  'C02': ('Theorems C02_no_contract_violation and C02_program_parametric / C02_reader_parametric / C02_avps_parametric / C02_type_parametric: no run issues an '
          'out-of-contract reader call, and for every Reader implementation satisfying Conforms the decoder returns the same result and leaves the reader at the same '
-         'suffix (one induction over decoder programs as a free monad over the Reader trait). reveal() builds its own SliceReader: covered by (a) only, see C13.'),
+         'suffix (one induction over decoder programs as a free monad over the Reader trait). C02_bytes_always_available: the checked request bytes(n) is '
+         'likewise only made for octets that remain (AVPReadError/MessageReadError are never reported). reveal() builds its own SliceReader: covered by (a) only, see C13.'),
  'C05': ('Theorems C05_decode_refines_spec / C05_avps_refine_spec / C05_payload_refines_spec: the Model decoder equals the positional executable specification '
          'Spec/SpecDecode.v on complete results (value + remaining input, or the whole error list) for every octet string and option set.'),
  'C06': ('Theorems C06_encode_refines_spec / C06_avp_refines_spec / C06_encode_writer: the Model encoder (placeholders back-patched through write_bytes_at) emits '
